@@ -1007,7 +1007,12 @@ class C16:
             sc['cold'] = {'capacity': max(o['rate'] * o['duration'] for o in sc['obs']), 'rate': 1}
             sc['mode'] = 'roomy'
             sc['delays'] = {}
-            return {'sim': True, 'sc': sc, 'unit': u, 'order': order}
+            dl = {}
+            for j, o in enumerate(sc['obs']):
+                for n in o['wf']['nodes']:
+                    if (ks[(j + n['id']) % len(ks)] + n['id']) % 4 == 0:
+                        dl[f"{o['name']}:{n['id']}"] = 1 + (ks[0] + n['id']) % 2
+            return {'sim': True, 'sc': sc, 'unit': u, 'order': order, 'delay_steps': dl}
         base = scenarios(algs=('batch', 'queue'), modes=('roomy',), max_machines=4, max_obs=2, max_nodes=4, max_duration=3,
                          start_gaps=(0, 1, 2))
         # small custom factors keep the seconds-unit run short; the unit *spellings* are covered by the parse-level part
@@ -1022,7 +1027,10 @@ class C16:
         sc, u = case['sc'], case['unit']
         uf = {'minutes': 60}.get(u, u)
         # both simulations live in one interpreter; they may both be built before either runs, in either order
-        a, b = run_pair(dict(sc, unit='seconds'), dict(sc, unit=u), case.get('order', 'seq'))
+        # injected task delays are physical too: k x factor steps with 'seconds' are k steps with the coarser unit
+        dl = case.get('delay_steps') or {}
+        a, b = run_pair(dict(sc, unit='seconds', delays={k: v * uf for k, v in dl.items()}),
+                        dict(sc, unit=u, delays=dict(dl)), case.get('order', 'seq'))
         state.count(f"order={case.get('order', 'seq')}")
         out = []
         if a.status != 'completed' or b.status != 'completed':
@@ -1244,9 +1252,12 @@ class TierModel:
         self.ops.append(op)
         kind = op[0]
         try:
+            # data still arriving in the hot tier from moves in flight: with several moves in flight the tier's single transfer slot
+            # (what has_capacity_for looks at) only knows one of them, so the harness keeps its own reserve
+            arriving = sum(mv['left'] for mv in self.moves if mv['dir'] == 'c2h')
             if kind == 'store':
                 size = op[1]
-                if self.hot.has_capacity_for(size) and self.hot.current_capacity - size >= 0:
+                if self.hot.has_capacity_for(size) and self.hot.current_capacity - arriving - size >= 0:
                     self.k += 1
                     o = TierObs(f"o{self.k}", size)
                     self._stream_in(size)
@@ -1257,7 +1268,7 @@ class TierModel:
             elif kind == 'deposit':
                 # data of an observation that is still ingesting: on the hot tier, not yet in any list
                 size = op[1]
-                if self.hot.has_capacity_for(size) and self.hot.current_capacity - size >= 0:
+                if self.hot.has_capacity_for(size) and self.hot.current_capacity - arriving - size >= 0:
                     self._stream_in(size)
                     self.count('deposited_unlisted')
             elif kind == 'schedule':
